@@ -86,6 +86,7 @@ type Store struct {
 	statsdClient         statsd.ClientInterface // datadog metrics
 	idseq                *badger.Sequence       // sequence used for assigning ids to uris
 	idtxn                *badger.Txn            // rolling txn for ids
+	idParent             *Store                 // set on a contextual store: the store that owns the rolling txn for ids
 	idmux                sync.Locker
 	fullsyncLeaseTimeout time.Duration
 	blockCacheSize       int64
@@ -112,6 +113,7 @@ func NewContextualStore(store *Store) *Store {
 		statsdClient:         store.statsdClient,
 		idseq:                store.idseq,
 		idtxn:                store.idtxn,
+		idParent:             store,
 		idmux:                store.idmux,
 		fullsyncLeaseTimeout: store.fullsyncLeaseTimeout,
 		blockCacheSize:       store.blockCacheSize,
@@ -1400,6 +1402,11 @@ func (s *Store) getIDForURI(txn *badger.Txn, uri string) (uint64, bool, error) {
 }
 
 func (s *Store) commitIDTxn() error {
+	if s.idParent != nil {
+		// a contextual store shares the rolling id transaction of the store it was derived from; a copy of the
+		// pointer goes stale as soon as either side commits
+		return s.idParent.commitIDTxn()
+	}
 	s.idmux.Lock()
 	defer s.idmux.Unlock()
 
@@ -1446,6 +1453,9 @@ func (s *Store) getURIForID(rid uint64) (string, error) {
 }
 
 func (s *Store) assertIDForURI(uri string, localTxnCache map[string]uint64) (uint64, bool, error) {
+	if s.idParent != nil {
+		return s.idParent.assertIDForURI(uri, localTxnCache)
+	}
 	var rid uint64
 	var exists bool
 	isnew := false
